@@ -9,4 +9,4 @@ cmake -G Ninja -S /repo -B "$B" -DCMAKE_BUILD_TYPE=RelWithDebInfo >/dev/null 2>&
 cmake --build "$B" --target sgramm_c >/dev/null 2>&1
 # the compare_parsers targets have build-order races in a fresh tree (they are not part of the baseline): keep going, then retry once
 cmake --build "$B" -- -k 0 >"$B/build.log" 2>&1 || cmake --build "$B" -- -k 0 >>"$B/build.log" 2>&1 || true
-ctest --test-dir "$B" -j8 --timeout 900 -R '^yaep(\+\+)?-test' 2>&1 | tail -4
+ctest --test-dir "$B" -j8 --timeout 900 -R "^yaep(\\+\\+)?-test" 2>&1 | grep -E "Failed|tests passed|\*\*\*" | tail -12
